@@ -207,4 +207,13 @@ void zstd_verif_pool_dequeued(void* ctx, void* opaque);
         && ((more) == 1 || __CPROVER_POINTER_OFFSET(ip) > __CPROVER_POINTER_OFFSET(__CPROVER_loop_entry(ip)) || __CPROVER_POINTER_OFFSET(op) > __CPROVER_POINTER_OFFSET(__CPROVER_loop_entry(op)) \
             || __CPROVER_POINTER_OFFSET(__CPROVER_loop_entry(ip)) == __CPROVER_POINTER_OFFSET(iend) || __CPROVER_POINTER_OFFSET(__CPROVER_loop_entry(op)) == __CPROVER_POINTER_OFFSET(oend)))
 
+/* ---- sequence loop of the block decoder (ZSTD_decompressSequences_body): the output cursor stays between the
+ * start of the block's output and oend, the literal cursor between its start value and the end of the literals */
+#define ZSTD_VERIF_SEQLOOP(nbSeq, op, ostart, oend, litPtr, litEnd, seqState) \
+    __CPROVER_assigns(nbSeq, op, litPtr, seqState, __CPROVER_object_whole(ostart)) \
+    __CPROVER_loop_invariant((nbSeq) >= 0 \
+        && __CPROVER_same_object(op, ostart) && __CPROVER_POINTER_OFFSET(op) >= __CPROVER_POINTER_OFFSET(__CPROVER_loop_entry(op)) && __CPROVER_POINTER_OFFSET(op) <= __CPROVER_POINTER_OFFSET(oend) \
+        && __CPROVER_same_object(litPtr, litEnd) && __CPROVER_POINTER_OFFSET(litPtr) >= __CPROVER_POINTER_OFFSET(__CPROVER_loop_entry(litPtr)) && __CPROVER_POINTER_OFFSET(litPtr) <= __CPROVER_POINTER_OFFSET(litEnd)) \
+    __CPROVER_decreases(nbSeq)
+
 #endif
